@@ -13,6 +13,9 @@ def scenarios(tier, rng):
             fs = [("d%d/g%d.rs" % (i % 2, i), gen.cfl_file(rng, structured, rich=rng.random() < 0.7)[0]) for i in range(n)]
             out.append(h2.Scenario(fs, "edit", structured=structured, macros=gen.MACROS_ARG,
                                    lock=rng.choice([None, scen.lock_bytes(1000000)]), name="generated"))
+        # every combination of key-value list shape x target x path form x message kind, once
+        out.append(h2.Scenario([("matrix.rs", gen.feature_matrix().encode())], "edit", structured=structured,
+                               macros=gen.MACROS_ARG, name="feature-matrix"))
         for fs in scen.small_trees(structured, rng, 12 if quick else 150):
             out.append(h2.Scenario(fs, "edit", structured=structured, name="small"))
     corpus = h1.corpus_files(max_bytes=80000)
